@@ -96,13 +96,22 @@ type setup struct {
 
 type faultSpec struct {
 	At         pos    `json:"at"`
-	Kind       string `json:"kind"` // panic-err panic-str timeout deadline
+	Kind       string `json:"kind"` // panic-err panic-str panic-val timeout deadline
 	Persistent bool   `json:"persistent,omitempty"`
 	// Also: a second fault inside the Exception handlers
 	InException string `json:"in_exception,omitempty"` // ExceptionEnter | ExceptionState
 }
 
 const panicMsg = "verif-injected-panic-7f3a"
+
+type panicStruct struct {
+	Msg string
+	N   int
+}
+
+type panicStringer struct{}
+
+func (panicStringer) String() string { return "stringer:" + panicMsg }
 
 type runOut struct {
 	escaped   any
@@ -184,6 +193,16 @@ func runOne(s setup, f *faultSpec) *runOut {
 				panic(errors.New(panicMsg))
 			case "panic-str":
 				panic(panicMsg)
+			case "panic-val":
+				// neither an error nor a string: a struct, a slice, a Stringer
+				switch (len(f.At.Name) + f.At.Occ + f.At.Binding) % 3 {
+				case 0:
+					panic(panicStruct{Msg: panicMsg, N: 42})
+				case 1:
+					panic([]string{panicMsg})
+				default:
+					panic(panicStringer{})
+				}
 			case "timeout", "deadline":
 				<-release
 			}
@@ -569,6 +588,9 @@ func (eng) Run(c core.CaseDesc, tier string) *core.CaseResult {
 	for _, p := range ps {
 		for _, k := range []string{"panic-err", "panic-str", "timeout"} {
 			judge(res, s, faultSpec{At: p, Kind: k}, base)
+		}
+		if r.IntN(3) == 0 {
+			judge(res, s, faultSpec{At: p, Kind: "panic-val"}, base)
 		}
 		// the expensive kinds are sampled
 		if r.IntN(6) == 0 {
